@@ -43,6 +43,16 @@ func (propC03) Gen(r *Rng, run uint64, tier string) *Plan {
 		spec.Msg = "rich"
 	}
 	p.World = GenWorld(r.Sub("world"), spec)
+	if r.Bool(0.03) && len(p.World.Containers[0].Log) > 0 {
+		// one very large frame (beyond any plausible buffer size)
+		log := p.World.Containers[0].Log
+		n := []int{64*1024 - 31, 64 * 1024, 64*1024 + 1, 128*1024 + 7, 300 * 1024, 1024*1024 + 3}[r.Intn(6)]
+		b := make([]byte, n)
+		for i := range b {
+			b[i] = byte('A' + i%23)
+		}
+		log[r.Intn(len(log))].Msg = b
+	}
 	if p.Harness == "engine" {
 		p.Query = "{}"
 		p.Params = Params{Start: 0, End: hi2200 + 10*sec - (hi2200+10*sec)%sec, StepNs: sec, Limit: -1}
